@@ -35,19 +35,29 @@ def stream(ctx, grammars, sr, hashseed):
         ys = [list(x) for x in M.strings(g["nT"], 2)]
         for y in ys:
             ltab.want(lid, [a] + y)
-        plan.append((g, pid, lid, ps, a, ys))
+        # a derivative of a derivative grammar (same token again, or another one), one call at a time
+        b = a if ctx.rng.random() < 0.6 else ctx.rng.randrange(g["nT"])
+        zs = [list(x) for x in M.strings(g["nT"], 1)]
+        for z in zs:
+            ltab.want(lid, [a, b] + z)
+        plan.append((g, pid, lid, ps, a, ys, b, zs))
         for f in M.features(g):
             ctx.dist(f"{sr}:{f}")
         ctx.dist(f"{sr}:grammars")
     ptab.eval()
     ltab.eval()
-    jobs = [{"g": g, "sr": sr, "queries": [{"op": "prefix_weight", "xs": ps, "timeout": 40}, {"op": "derivatives_treesum", "xs": ps, "timeout": 40},
-                                            {"op": "derivative_call", "a": a, "xs": ys, "timeout": 40}]} for g, pid, lid, ps, a, ys in plan]
+    # every third grammar is built over integer terminals 0..nT-1 (0 is falsy, unlike a one-letter string)
+    jobs = [{"g": g, "sr": sr, "tnames": ("int" if k % 3 == 2 else "str"),
+             "queries": [{"op": "prefix_weight", "xs": ps, "timeout": 40}, {"op": "derivatives_treesum", "xs": ps, "timeout": 40},
+                         {"op": "derivative_call", "a": a, "xs": ys, "timeout": 40}, {"op": "derivative_call", "a": a, "then": [b], "xs": zs, "timeout": 40}]}
+            for k, (g, pid, lid, ps, a, ys, b, zs) in enumerate(plan)]
     res = run_jobs(jobs, hashseed=hashseed)
-    for (g, pid, lid, ps, a, ys), r in zip(plan, res):
+    for k, ((g, pid, lid, ps, a, ys, b, zs), r) in enumerate(zip(plan, res)):
+        tn = "int" if k % 3 == 2 else "str"
+        ctx.dist(f"{sr}:terminals-{tn}")
         for op, q in zip(("prefix_weight", "derivatives_treesum"), r[:2]):
             if "err" in q:
-                viol(ctx, f"{op}:error:{q['err'][:30]}", f"{op} raised {q['err']} (semiring {sr})", {"kind": "prefix-error", "op": op, "sr": sr, "grammar": g, "error": q["err"]})
+                viol(ctx, f"{op}:error:{q['err'][:30]}", f"{op} raised {q['err']} (semiring {sr})", {"kind": "prefix-error", "op": op, "sr": sr, "tnames": tn, "grammar": g, "error": q["err"]})
                 continue
             for p, enc in zip(ps, q["ok"]):
                 ref = ptab.get(pid, p)
@@ -56,7 +66,7 @@ def stream(ctx, grammars, sr, hashseed):
                 v = dec_val(enc)
                 ctx.count_case((sr, json.dumps(g), op, tuple(p)), nontrivial=bool(ref))
                 if not close_enough(v, ref):
-                    viol(ctx, f"{op}:{sr}", f"{op}({p}) = {v}; total weight of the strings with that prefix is {ref}", {"kind": "prefix", "op": op, "sr": sr, "grammar": g, "xs": p, "observed": str(v), "expected": str(ref)})
+                    viol(ctx, f"{op}:{sr}", f"{op}({p}) = {v}; total weight of the strings with that prefix is {ref}", {"kind": "prefix", "op": op, "sr": sr, "tnames": tn, "grammar": g, "xs": p, "observed": str(v), "expected": str(ref)})
         q = r[2]
         if "err" in q:
             viol(ctx, f"derivative:error:{q['err'][:30]}", f"derivative raised {q['err']}", {"kind": "prefix-error", "op": "derivative_call", "sr": sr, "grammar": g, "a": a, "error": q["err"]})
@@ -68,7 +78,20 @@ def stream(ctx, grammars, sr, hashseed):
                 v = dec_val(enc)
                 ctx.count_case((sr, json.dumps(g), "derivative", a, tuple(y)), nontrivial=bool(ref))
                 if not close_enough(v, ref):
-                    viol(ctx, f"derivative:{sr}", f"derivative({a})({y}) = {v}; the grammar gives {[a] + y} the weight {ref}", {"kind": "prefix", "op": "derivative_call", "sr": sr, "grammar": g, "a": a, "xs": y, "observed": str(v), "expected": str(ref)})
+                    viol(ctx, f"derivative:{sr}", f"derivative({a})({y}) = {v}; the grammar gives {[a] + y} the weight {ref}", {"kind": "prefix", "op": "derivative_call", "sr": sr, "tnames": tn, "grammar": g, "a": a, "xs": y, "observed": str(v), "expected": str(ref)})
+        q = r[3]
+        if "err" in q:
+            viol(ctx, f"derivative2:error:{q['err'][:30]}", f"derivative({a}).derivative({b}) raised {q['err']}", {"kind": "prefix-error", "op": "derivative_call", "sr": sr, "tnames": tn, "grammar": g, "a": a, "then": [b], "error": q["err"]})
+        else:
+            for z, enc in zip(zs, q["ok"]):
+                ref = ltab.get(lid, [a, b] + z)
+                if ref is None:
+                    continue
+                v = dec_val(enc)
+                ctx.count_case((sr, json.dumps(g), "derivative2", a, b, tuple(z)), nontrivial=bool(ref))
+                if not close_enough(v, ref):
+                    viol(ctx, f"derivative2:{sr}", f"derivative({a}).derivative({b})({z}) = {v}; the grammar gives {[a, b] + z} the weight {ref}",
+                         {"kind": "prefix", "op": "derivative_call", "sr": sr, "tnames": tn, "grammar": g, "a": a, "then": [b], "xs": z, "observed": str(v), "expected": str(ref)})
     ctx.sample({"semiring": sr, "grammar": plan[0][0], "prefixes": plan[0][3][:4], "reference": [str(ptab.get(plan[0][1], p)) for p in plan[0][3][:4]]})
 
 
@@ -142,7 +165,8 @@ def replay(obj):
     q = {"op": op, "xs": [obj.get("xs", [])]}
     if op == "derivative_call":
         q["a"] = obj["a"]
-    r = run_jobs([{"g": g, "sr": sr, "queries": [q]}])[0][0]
+        q["then"] = obj.get("then", [])
+    r = run_jobs([{"g": g, "sr": sr, "tnames": obj.get("tnames", "str"), "queries": [q]}])[0][0]
     print("grammar:", json.dumps(g))
     print(q, "->", r, "expected:", obj.get("expected"))
     return 0
